@@ -557,6 +557,13 @@ class PteraTransformer(NodeTransformer):
                 body = body[1:]
 
         new_body += self.visit_body(node.body)
+        if self.should_instrument("#value"):
+            # Falling off the end returns None: that is a return value too
+            new_body.append(
+                ast.copy_location(
+                    self.visit_Return(ast.Return(value=None)), node.body[-1]
+                )
+            )
         new_body = self.delimit(
             new_body,
             ["#enter"],
